@@ -3,7 +3,7 @@
 spec/PyLongArith.tla: reference semantics of  x op c / c op x  (ints, bools, floats on a scaled
 IEEE model with signed zeros, inf, nan, half-even rounding) and an implementation-shaped
 transcription of the helper families of Utility/Optimize.c (PyLongBinop, PyLongCompare,
-PyFloatBinop, PyNumberBinop) together with the selection rule of Optimize.py.  TLC decides, for
+PyFloatBinop, PyNumberBinop, PyObjectCompare) together with the selection rule of Optimize.py.  TLC decides, for
 every site x every operand of the scaled instance: FastPath = Reference or delegated to the
 generic protocol, no C undefined behaviour - except on the declared hazard paths, whose cells it
 publishes.
